@@ -362,6 +362,15 @@ class Inliner:
             return None
         fn = call.func
         t = None
+        if isinstance(fn, ast.Lambda) and usage == "value" and len(stack) < MAX_DEPTH + 2:
+            a_ = fn.args
+            if not (a_.vararg or a_.kwarg or a_.kwonlyargs):
+                body_ = ast.Return(value=fn.body)
+                ast.copy_location(body_, fn)
+                fdef = ast.FunctionDef(name="__lambda__", args=a_, body=[body_], decorator_list=[], returns=None)
+                _fix_locs(fdef, getattr(fn, "lineno", 0))
+                return _Pseudo("lambda", fdef, root.module)
+            return None
         if isinstance(fn, ast.Name) and fn.id in self.fn_alias:
             t = self.fn_alias[fn.id]            # a parameter of an inlined helper that was bound to a function
         elif isinstance(fn, ast.Name):
